@@ -31,14 +31,15 @@ def diagonal {α : Type} (a : Arr α) (offset axis1 axis2 : Int) : Option (Arr (
       ⟨dsh, fun d => readAt a (Linalg.diagonalIdx a.shape.length d offset ax1 ax2)⟩)
   | _, _ => none
 
-/-- `view::trace(a, offset, axis1, axis2)` = `view::sum(view::diagonal(…), -1, None, None, False)` -/
-def trace {α : Type} (add : α → α → α) (a : Arr α) (offset axis1 axis2 : Int) : Option (Arr (Option α)) :=
+/-- `view::trace(a, offset, axis1, axis2)` = `view::sum(view::diagonal(…), -1, None, None, False)`;
+    `zero` = `add_t::identity()` (the value of the sum over an empty diagonal) -/
+def trace {α : Type} (add : α → α → α) (zero : Option α) (a : Arr α) (offset axis1 axis2 : Int) : Option (Arr (Option α)) :=
   (diagonal a offset axis1 axis2).bind (fun dg =>
-    (reduce (optOp add) none dg (some [-1]) false).map (fun r => ⟨r.shape, fun j => (r.get j).join⟩))
+    (reduceId (zero.map some) (optOp add) none dg (some [-1]) false).map (fun r => ⟨r.shape, fun j => (r.get j).join⟩))
 
 /-- NumPy `np.trace(a, offset, axis1, axis2)[j]`: the diagonal elements `a[…, i + max(-offset,0), …, i + max(offset,0), …]`,
-    `i = 0 … len-1`, summed in that order (`none` on an empty diagonal when no identity is supplied) -/
-def specTraceElem {α : Type} (add : α → α → α) (a : Arr α) (sp : Arr (List Idx)) (j : Idx) : Option α :=
-  foldFirst add none ((sp.get j).map a.get)
+    `i = 0 … len-1`, summed in that order; `zero` for an empty diagonal -/
+def specTraceElem {α : Type} (add : α → α → α) (zero : Option α) (a : Arr α) (sp : Arr (List Idx)) (j : Idx) : Option α :=
+  foldNumpy zero add none ((sp.get j).map a.get)
 
 end NmVerif.Reduce
